@@ -135,6 +135,7 @@ func params(thorough bool) (contents []string, nspell int, views [][]string, buf
 }
 
 func run(c *fw.Ctx) {
+	fsx.CheckSizes = true
 	contents, nspell, views, bufs, maxHists := params(c.Thorough())
 	states := fsx.Reach(fsx.Mutators(contents), 2, maxHists)
 	alphabet := fsx.Alphabet(contents, nspell, views, true, bufs)
@@ -250,6 +251,7 @@ func modelAfter(hist []treefs.Op) *treefs.Node {
 }
 
 func replay(w json.RawMessage) (*fw.Violation, error) {
+	fsx.CheckSizes = true
 	var lw struct {
 		Live *liveWit `json:"live"`
 	}
